@@ -119,3 +119,17 @@ M('slab:realloc-failure-frees-source', ['C04'], 'slab.hpp', "	void *new_p = allo
 M('slab:policy-map-under-bucket-lock', ['C05', 'C01'], 'slab.hpp', "			// Call into the Policy without holding locks.\n			bucket_guard.unlock();\n\n			auto slb = _construct_slab(index);", "			auto slb = _construct_slab(index);\n			bucket_guard.unlock();")
 M('slab:large-address-not-padded', ['C01'], 'slab.hpp', "	auto fra = new ((void *)address) frame(frame_type::large,\n			address + huge_padding, area_size);", "	auto fra = new ((void *)address) frame(frame_type::large,\n			address + (area_size == 2 * page_size ? 64 : huge_padding), area_size);")
 M('slab:area-size-rounds-down', ['C01'], 'slab.hpp', "		auto area_size = (length + page_size - 1) & ~(page_size - 1);", "		auto area_size = (length + page_size - 2) & ~(page_size - 1);")
+
+# ---------------------------------------------------------------- C12 locks and guards
+M('spin:ticket-acquire-relaxed', ['C12'], 'spinlock.hpp', "		while(__atomic_load_n(&serving_ticket_, __ATOMIC_ACQUIRE) != ticket) {", "		while(__atomic_load_n(&serving_ticket_, __ATOMIC_RELAXED) != ticket) {")
+M('spin:ticket-release-relaxed', ['C12'], 'spinlock.hpp', "		__atomic_store_n(&serving_ticket_, current + 1, __ATOMIC_RELEASE);", "		__atomic_store_n(&serving_ticket_, current + 1, __ATOMIC_RELAXED);")
+M('spin:ticket-unlock-skips-ticket', ['C12'], 'spinlock.hpp', "		__atomic_store_n(&serving_ticket_, current + 1, __ATOMIC_RELEASE);", "		__atomic_store_n(&serving_ticket_, current + 1 + (current == 2), __ATOMIC_RELEASE);")
+M('spin:ticket-nonatomic-take', ['C12'], 'spinlock.hpp', "		auto ticket = __atomic_fetch_add(&next_ticket_, 1, __ATOMIC_RELAXED);\n		FRG_VERIF_POINT(\"ticket.lock.took_ticket\", this, ticket);", "		auto ticket = __atomic_load_n(&next_ticket_, __ATOMIC_RELAXED);\n		FRG_VERIF_POINT(\"ticket.lock.took_ticket\", this, ticket);\n		__atomic_store_n(&next_ticket_, ticket + 1, __ATOMIC_RELAXED);")
+M('spin:simple-test-then-set', ['C12'], 'spinlock.hpp', "			if (!__atomic_exchange_n(&lock_, true, __ATOMIC_ACQUIRE)) {\n				FRG_VERIF_POINT(\"simple.lock.acquired\", this, 0);", "			if (!__atomic_load_n(&lock_, __ATOMIC_ACQUIRE)) {\n				FRG_VERIF_POINT(\"simple.lock.acquired\", this, 0);\n				__atomic_store_n(&lock_, true, __ATOMIC_RELAXED);")
+M('spin:simple-acquire-relaxed', ['C12'], 'spinlock.hpp', "			if (!__atomic_exchange_n(&lock_, true, __ATOMIC_ACQUIRE)) {", "			if (!__atomic_exchange_n(&lock_, true, __ATOMIC_RELAXED)) {")
+M('guard:unique_lock-swap-forgets-flag', ['C12'], 'mutex.hpp', "		swap(u._mutex, v._mutex);\n		swap(u._is_locked, v._is_locked);\n	}\n\n	unique_lock()", "		swap(u._mutex, v._mutex);\n	}\n\n	unique_lock()")
+M('guard:unique_lock-dtor-skips-unlock-after-move-assign', ['C12'], 'mutex.hpp', "	unique_lock &operator= (unique_lock other) {\n		swap(*this, other);\n		return *this;\n	}", "	unique_lock &operator= (unique_lock other) {\n		_mutex = other._mutex;\n		_is_locked = other._is_locked;\n		other._is_locked = false;\n		return *this;\n	}")
+M('guard:shared_lock-unlock-exclusive', ['C12'], 'mutex.hpp', "		_mutex->unlock_shared();", "		_mutex->unlock();")
+M('guard:shared_lock-adopt-not-owning', ['C12'], 'mutex.hpp', "	[[nodiscard]] shared_lock(adopt_lock_t, Mutex &mutex)\n	: _mutex{&mutex}, _is_locked{true} { }", "	[[nodiscard]] shared_lock(adopt_lock_t, Mutex &mutex)\n	: _mutex{&mutex}, _is_locked{false} { }")
+M('guard:qs-lock_guard-unlock-locks', ['C12', 'C11'], 'qs.hpp', "		FRG_ASSERT(_locked);\n		_mutex->unlock();", "		FRG_ASSERT(_locked);\n		_mutex->lock();")
+M('guard:unique_lock-protects-ignores-flag', ['C12'], 'mutex.hpp', "		return _is_locked && mutex == _mutex;\n	}\n\nprivate:\n	Mutex *_mutex;\n	bool _is_locked;\n};\n\ntemplate<typename Mutex>\nclass shared_lock {", "		return mutex == _mutex;\n	}\n\nprivate:\n	Mutex *_mutex;\n	bool _is_locked;\n};\n\ntemplate<typename Mutex>\nclass shared_lock {")
